@@ -80,11 +80,67 @@ def helper():
     return _HELPER
 
 
+class _RealCodeTimeout(Exception):
+    pass
+
+
+_TIMEOUTS = {"n": 0}
+
+
+class guarded:
+    """runs a call of the real code under a wall-clock limit and an address-space limit: a changed implementation that no longer
+    terminates or keeps allocating is observed as an exception of that call, not as a dead harness"""
+
+    def __init__(self, seconds=20, extra_gb=3):
+        self.seconds, self.extra = seconds, extra_gb << 30
+
+    def __enter__(self):
+        import resource
+        import signal
+
+        def _alarm(signum, frame):
+            raise _RealCodeTimeout()
+        self.old_handler = signal.signal(signal.SIGALRM, _alarm)
+        signal.setitimer(signal.ITIMER_REAL, self.seconds)
+        self.old_limit = resource.getrlimit(resource.RLIMIT_AS)
+        try:
+            with open("/proc/self/statm") as fh:
+                now = int(fh.read().split()[0]) * resource.getpagesize()
+            hard = self.old_limit[1]
+            soft = now + self.extra
+            if hard != resource.RLIM_INFINITY:
+                soft = min(soft, hard)
+            resource.setrlimit(resource.RLIMIT_AS, (soft, hard))
+        except Exception:
+            pass
+        return self
+
+    def __exit__(self, et, ev, tb):
+        import resource
+        import signal
+        signal.setitimer(signal.ITIMER_REAL, 0)
+        signal.signal(signal.SIGALRM, self.old_handler)
+        try:
+            resource.setrlimit(resource.RLIMIT_AS, self.old_limit)
+        except Exception:
+            pass
+        return False
+
+
 def arabic_trace(concrete):
     rec = {"text": tokens_of(concrete), "r1": [], "r2": [], "outcome": "ok", "concrete": concrete}
     try:
-        r1 = helper().string_to_label_form(concrete)
-        r2 = helper().label_form_to_string(r1)
+        # three conversions in this process already ran into the time limit: the implementation degrades with every call, the
+        # remaining cases of this process are recorded as the time-outs they would be instead of waiting for each of them
+        if _TIMEOUTS["n"] >= 3:
+            raise _RealCodeTimeout()
+        try:
+            with guarded(5):
+                r1 = helper().string_to_label_form(concrete)
+                r2 = helper().label_form_to_string(r1)
+        except _RealCodeTimeout:
+            _TIMEOUTS["n"] += 1
+            raise
         # a result cannot be longer than its input: keep the record small whatever the code returned
         r1, r2 = r1[:len(concrete) + 4], r2[:len(concrete) + 4]
         rec["r1"], rec["r2"] = tokens_of(r1), tokens_of(r2)
@@ -286,7 +342,8 @@ def alto_trace(case):
     rec["pre"] = [conf_ppm(ln.transcription_confidence) for ln in lines]
     xml = None
     try:
-        xml = page.to_altoxml_string(min_line_confidence=case["minconf"] / 1000000.0)
+        with guarded(60):
+            xml = page.to_altoxml_string(min_line_confidence=case["minconf"] / 1000000.0)
         rec["obs"] = project_alto(xml)
     except Exception as ex:  # the export failing is an observation (clause 1), never a harness crash
         rec["outcome"] = "exception:" + type(ex).__name__
